@@ -75,6 +75,9 @@ func (ds *DirStructure) EnsureAbsPath(dirPath string) error {
 		return ds.Parent.EnsureAbsPath(dirPath)
 	}
 
+	// clean the path, so that parent references cannot bypass the scope check
+	dirPath = filepath.Clean(dirPath)
+
 	// check if root
 	if dirPath == ds.Path {
 		return ds.ensure(nil)
